@@ -12,6 +12,7 @@ import (
 	"github.com/remieven/ysgo/verifharness/gen"
 	"github.com/remieven/ysgo/verifharness/hast"
 	"github.com/remieven/ysgo/verifharness/model"
+	"github.com/remieven/ysgo/verifharness/mon"
 )
 
 // C08 — layout never changes meaning.
@@ -23,7 +24,7 @@ func (c08) ID() string { return "C08" }
 
 // EvalFeatures names the counters of judged executions.
 func (c08) EvalFeatures() []string {
-	return []string{"tree-comparisons", "trace-comparisons", "k2-jumps"}
+	return []string{"tree-comparisons", "trace-comparisons", "k2-jumps", "decorated-elements-compared"}
 }
 
 func (c08) Cases(tier string) int {
@@ -65,11 +66,16 @@ func (c08) Thresholds(tier string) map[string]int64 {
 		"dim:tabs-and-blanks-per-line":                  400,
 		"dim:mixed-whitespace-on-blank-lines":           800,
 		"layout:filler:mixed-tab-blank-whitespace":      2000,
+		"dim:padded-reader":                             500,
+		"padded-reader:>=68KiB":                         150,
+		"padded-reader:>=1074KiB":                       80,
+		"decorated-elements-compared":                   8000,
+		"decorated-elements-with-attributes":            5000,
 	}
 }
 
 func (c08) Rule() string {
-	return "case = one generated program rendered in the canonical layout L0 and in 4 (quick) / 10 (thorough) PRNG layouts: indent unit 1-8 blanks or 1-2 tabs, or per line either tabs or 8 blanks per level (a tab is 8 columns), if bodies indented or flat, LF/CRLF/CR, minimal/full/redundant parentheses, operator spellings per occurrence, extra blanks inside << >> and { }, blank / white-space-only / comment lines (at column 0, at the body's depth, deeper and shallower; their white space may mix tabs and blanks, since they carry no statement) at every insertion point (between statements, between an option line and its body, between options, before elseif/else/endif, between headers, first/last in a node, between nodes), trailing comments, and a different node-to-reader split. Oracle: tree.FromReaders of every rendering is reflect.DeepEqual to L0's, and along shared PRNG choice paths every rendering produces the model's trace. Non-trivial: the variant differs from L0 in >=2 dimensions and the program nests >=2 deep. Distinct by hash of the variant's text."
+	return "case = one generated program rendered in the canonical layout L0 and in 4 (quick) / 10 (thorough) PRNG layouts: indent unit 1-8 blanks or 1-2 tabs, or per line either tabs or 8 blanks per level (a tab is 8 columns), if bodies indented or flat, LF/CRLF/CR, minimal/full/redundant parentheses, operator spellings per occurrence, extra blanks inside << >> and { }, blank / white-space-only / comment lines (at column 0, at the body's depth, deeper and shallower; their white space may mix tabs and blanks, since they carry no statement) at every insertion point (between statements, between an option line and its body, between options, before elseif/else/endif, between headers, first/last in a node, between nodes), trailing comments, a different node-to-reader split, and (first variant of a case, LF layouts) 5 KiB - 1.1 MiB of blank and comment lines inserted at one line boundary, so that a reader exceeds every plausible buffer. A second sub-workload compares scripts of 6 lines/options whose texts begin or end with a speaker colon or carry markup, with and without trailing decorations (blanks, tabs, // comments, #hashtags): text and markup attributes (the implicit character attribute included) must be identical and the tags exactly those written. Oracle: tree.FromReaders of every rendering is reflect.DeepEqual to L0's, and along shared PRNG choice paths every rendering produces the model's trace. Non-trivial: the variant differs from L0 in >=2 dimensions and the program nests >=2 deep. Distinct by hash of the variant's text."
 }
 
 func (c08) Assumptions() []string {
@@ -119,7 +125,104 @@ func resplit(p *hast.Program, r *core.Rand) *hast.Program {
 	return q
 }
 
+// trailingDecorations: what follows the text of a line or option on the same line - blanks, a comment,
+// hashtags - is layout (or tags), never part of the text: the element's text AND its markup attributes
+// (the implicit character attribute of a "Name:" prefix included) are the same with and without it.
+func (c08) trailingDecorations(c *core.Ctx) {
+	r := c.R
+	texts := []string{"Narrator:", "Alice: hi", "Bob:", "x [b]bold[/b]", "[wave]a[/wave]:", "plain text", "Name : spaced", "a: b: c", "Mae: [i]so[/i]", "Ünï:", "日本: 語", "[b]Warning[/b]:", "ends with colon: x:", "A:", "x [pause /]"}
+	decos := []string{" ", "   ", "\t", " // comment", "  // c: d", "\t// c", " #tag", "  #t1 #t2", " #tag // c", "  #a:b // x: y", " // #notatag"}
+	var lines, dlines []string
+	var wantTags [][]string
+	for i := 0; i < 6; i++ {
+		t := texts[r.Intn(len(texts))]
+		d := decos[r.Intn(len(decos))]
+		lines = append(lines, t)
+		dlines = append(dlines, t+d)
+		var tags []string
+		if k := strings.Index(d, "//"); k >= 0 {
+			d = d[:k]
+		}
+		for _, f := range strings.Fields(d) {
+			tags = append(tags, strings.TrimPrefix(f, "#"))
+		}
+		wantTags = append(wantTags, tags)
+	}
+	mk := func(ls []string) string {
+		var b strings.Builder
+		b.WriteString("title: Start\n---\n")
+		for i, l := range ls {
+			if i%3 == 2 {
+				b.WriteString("-> " + l + "\nsep" + fmt.Sprint(i) + "\n")
+			} else {
+				b.WriteString(l + "\n")
+			}
+		}
+		b.WriteString("===\n")
+		return b.String()
+	}
+	run := func(script string) ([]mon.Obs, string) {
+		rr, err, pan := mon.Create(nil, "", []string{script})
+		if err != nil || pan != "" {
+			return nil, fmt.Sprint("failed to load: ", err, pan)
+		}
+		var obs []mon.Obs
+		for step := 0; step < 20; step++ {
+			o := rr.Next(0)
+			if o.Kind == mon.KEnd {
+				break
+			}
+			if o.Kind == mon.KErr || o.Kind == mon.KPanic {
+				return obs, o.String()
+			}
+			obs = append(obs, o)
+		}
+		return obs, ""
+	}
+	plain, decorated := mk(lines), mk(dlines)
+	po, perr := run(plain)
+	do, derr := run(decorated)
+	detail := map[string]any{"plain": plain, "decorated": decorated}
+	if perr != "" || derr != "" || len(po) != len(do) {
+		detail["plain_result"], detail["decorated_result"] = fmt.Sprint(perr, " ", len(po), " elements"), fmt.Sprint(derr, " ", len(do), " elements")
+		c.Violate("trailing blanks, comments or hashtags change how a script runs", detail)
+		return
+	}
+	k := 0
+	for i := range po {
+		a, b := po[i], do[i]
+		if a.Kind == mon.KOptions && b.Kind == mon.KOptions && len(a.Opts) == 1 && len(b.Opts) == 1 {
+			a = mon.Obs{Kind: mon.KLine, Text: a.Opts[0].Text, Tags: a.Opts[0].Tags, Attrs: a.Opts[0].Attrs}
+			b = mon.Obs{Kind: mon.KLine, Text: b.Opts[0].Text, Tags: b.Opts[0].Tags, Attrs: b.Opts[0].Attrs}
+		}
+		if strings.HasPrefix(a.Text, "sep") {
+			continue
+		}
+		c.Feature("decorated-elements-compared")
+		if len(a.Attrs) > 0 {
+			c.Feature("decorated-elements-with-attributes")
+		}
+		switch {
+		case a.Kind != b.Kind || a.Text != b.Text:
+			detail["difference"] = fmt.Sprintf("element %d: %s vs %s", i, a, b)
+		case !reflect.DeepEqual(a.Attrs, b.Attrs) && !(len(a.Attrs) == 0 && len(b.Attrs) == 0):
+			detail["difference"] = fmt.Sprintf("element %d (%q): attributes %+v vs %+v", i, a.Text, a.Attrs, b.Attrs)
+		case k < len(wantTags) && strings.Join(b.Tags, " ") != strings.Join(wantTags[k], " "):
+			detail["difference"] = fmt.Sprintf("element %d (%q): tags %v, written %v", i, a.Text, b.Tags, wantTags[k])
+		}
+		k++
+		if detail["difference"] != nil {
+			c.Violate("trailing blanks, comments or hashtags change the text or the markup attributes of an element", detail)
+			return
+		}
+	}
+}
+
 func (p c08) Run(c *core.Ctx) {
+	p.trailingDecorations(c)
+	if c.Failed() {
+		return
+	}
 	p.jumpBlanks(c)
 	if c.Failed() {
 		// (a known finding does not stop the case; anything else does)
@@ -196,6 +299,16 @@ func (p c08) Run(c *core.Ctx) {
 			dims = append(dims, "reader-split")
 		}
 		text := hast.Render(vp, l)
+		if v == 0 && l.EOL == "\n" {
+			// size is layout too: thousands of blank and comment lines make one reader larger than any
+			// buffer (4 KiB, 64 KiB, 1 MiB) without changing a statement
+			size := []int{5000, 70000, 70000, 140000, 1100000}[r.Intn(5)]
+			if padded, ok := padReader(r, text[0], size); ok {
+				text = append([]string{padded}, text[1:]...)
+				dims = append(dims, "padded-reader")
+				c.Feature(fmt.Sprintf("padded-reader:>=%dKiB", size/1024))
+			}
+		}
 		for _, d := range dims {
 			c.Feature("dim:" + d)
 		}
@@ -241,6 +354,44 @@ func (p c08) Run(c *core.Ctx) {
 			c.Sample(map[string]any{"canonical": base, "variant": text, "dimensions": dims})
 		}
 	}
+}
+
+// padReader inserts blank and comment lines of about size bytes at one line boundary inside a body or
+// between two nodes.
+func padReader(r *core.Rand, text string, size int) (string, bool) {
+	lines := strings.SplitAfter(text, "\n")
+	var spots []int
+	inBody := false
+	for i, l := range lines {
+		t := strings.TrimSpace(l)
+		if t == "---" {
+			inBody = true
+			spots = append(spots, i+1)
+		} else if t == "===" {
+			inBody = false
+			spots = append(spots, i+1)
+		} else if inBody && !strings.HasSuffix(l, "\n") {
+			continue
+		} else if inBody {
+			spots = append(spots, i+1)
+		}
+	}
+	if len(spots) == 0 {
+		return text, false
+	}
+	at := spots[r.Intn(len(spots))]
+	var b strings.Builder
+	for b.Len() < size {
+		switch r.Intn(3) {
+		case 0:
+			b.WriteString("\n")
+		case 1:
+			b.WriteString("// padding padding padding padding padding padding padding padding\n")
+		default:
+			b.WriteString("        // indented padding\n")
+		}
+	}
+	return strings.Join(lines[:at], "") + b.String() + strings.Join(lines[at:], ""), true
 }
 
 // jumpBlanks is the K2 sub-workload: more than one blank between <<jump and its target is layout
